@@ -366,3 +366,75 @@ seed("c07-transpose-val-misaligned", "C07", SP, "                at.val[ index ]
 seed("c07-multiply-guard-rows", "C07", SP, """        if self.cols != x.size() { 
             panic!( "Sparse matrix multiply""", """        if self.rows != x.size() { 
             panic!( "Sparse matrix multiply""", "scatter")
+
+# ---------------------------------------------------------------- C08 / C09
+seed("c08-cg-ok-untested", "C08", SP, """            resid = r.norm_2() / normb;
+            if resid <= tol { return Ok( i ); }
+            rho_1 = rho;""", """            resid = r.norm_2() / normb;
+            if resid <= tol || i == max_iter { return Ok( i ); }
+            rho_1 = rho;""", "ok-tested")
+seed("c08-cg-r-wrong-coef2", "C08", SP, "            r -= q.clone() * alpha;", "            r -= q.clone() * rho;", "residual-tracks-iterate/solve_cg")
+seed("c08-cg-x-hoisted", "C08", SP, """        if resid <= tol { return Ok( 0 ); }
+
+        for i in 1..=max_iter {
+            //z = r; //could have preconditioner here z = M.solve(r);""", """        if resid <= tol { return Ok( 0 ); }
+        *x += r.clone() * 0.0;
+
+        for i in 1..=max_iter {
+            //z = r; //could have preconditioner here z = M.solve(r);""", "x-untouched")
+seed("c08-bicgstab-halfstep-no-x", "C08", SP, """            if resid <= tol {
+                *x += phat.clone() * alpha;
+                return Ok( i );""", """            if resid <= tol {
+                return Ok( i );""", "tested-vector/solve_bicgstab")
+seed("c08-bicgstab-x-omega-dropped", "C08", SP, "            *x += omega * shat.clone();\n", "", "residual-tracks-iterate/solve_bicgstab")
+seed("c08-qmr-r-plus", "C08", SP, "            r -= s.clone();", "            r += s.clone();", "residual-tracks-iterate/solve_qmr")
+seed("c08-qmr-s-wrong", "C08", SP, "                s = eta * p_tld.clone() + ( theta_1 * theta_1 * gamma * gamma ) * s;", "                s = eta * p_tld.clone() + ( theta_1 * theta * gamma * gamma ) * s;", "residual-tracks-iterate/solve_qmr")
+seed("c08-bicg-loop-le", "C08", SP, "        while iter < max_iter {", "        while iter <= max_iter {", "budget/solve_bicg")
+seed("c08-bicg-test-rr", "C08", SP, "            if itol == 1 { err = r.norm_2() / bnrm; }\n            if itol == 2 { err = z.norm_2() / bnrm; }\n            if err <= tol { return Ok( iter ); }",
+     "            if itol == 1 { err = rr.norm_2() / bnrm; }\n            if itol == 2 { err = z.norm_2() / bnrm; }\n            if err <= tol { return Ok( iter ); }", "tested-vector/solve_bicg")
+seed("c08-cg-initial-residual-sign", "C08", SP, """        let mut normb = b.norm_2();
+        let mut r = b.clone() - self.multiply( x );
+
+        if normb == 0.0 { normb = 1.0; }
+        resid = r.norm_2() / normb;
+        if resid <= tol { return Ok( 0 ); }
+
+        for i in 1..=max_iter {
+            //z = r;""", """        let mut normb = b.norm_2();
+        let mut r = self.multiply( x ) - b.clone();
+
+        if normb == 0.0 { normb = 1.0; }
+        resid = r.norm_2() / normb;
+        if resid <= tol { return Ok( 0 ); }
+
+        for i in 1..=max_iter {
+            //z = r;""", "initial-residual/solve_cg")
+seed("c08-qmr-breakdown-ok", "C08", SP, "            if gamma == 0.0 { return Err( resid ); }", "            if gamma == 0.0 { return Ok( i ); }", "ok-tested/solve_qmr")
+seed("c08-cg-q-from-z", "C08", SP, "            q = self.multiply( &p );", "            q = self.multiply( &z );", "residual-tracks-iterate/solve_cg")
+seed("c08-bicgstab-tol-scaled", "C08", SP, "            if resid < tol { return Ok( i ); }", "            if resid < tol * 10.0 { return Ok( i ); }", "ok-tested/solve_bicgstab")
+seed("c09-cg-zero-norm-dropped", "C09", SP, """        let mut r = b.clone() - self.multiply( x );
+
+        if normb == 0.0 { normb = 1.0; }""", """        let mut r = b.clone() - self.multiply( x );
+""", "zero-norm/solve_cg")
+seed("c09-qmr-initial-test-dropped", "C09", SP, """        resid = r.norm_2() / normb;
+        if resid <= tol { return Ok( 0 ); }
+
+        v_tld = r.clone();""", """        resid = r.norm_2() / normb;
+
+        v_tld = r.clone();""", "accept-start/solve_qmr")
+seed("c09-bicg-startup-removed", "C09", SP, """        if bnrm == 0.0 { bnrm = 1.0; }
+        if itol == 1 { err = r.norm_2() / bnrm; }
+        if itol == 2 { err = z.norm_2() / bnrm; }
+        if err <= tol { return Ok( 0 ); }
+""", "", "solve_bicg", "the original defect")
+seed("c09-bicgstab-zero-norm-after-use", "C09", SP, """        if normb == 0.0 { normb = 1.0; }
+        resid = r.norm_2() / normb;
+        if resid <= tol { return Ok( 0 ); }
+
+        for i in 1..=max_iter {
+            rho_1 = rtilde.dot( &r );""", """        resid = r.norm_2() / normb;
+        if normb == 0.0 { normb = 1.0; }
+        if resid <= tol { return Ok( 0 ); }
+
+        for i in 1..=max_iter {
+            rho_1 = rtilde.dot( &r );""", "zero-norm/solve_bicgstab")
